@@ -18,6 +18,15 @@ mod tree_cache;
 mod utils;
 pub mod write_atom;
 
+#[cfg(feature = "verif-hooks")]
+pub mod verif_hooks {
+    //! re-exports of private serialization kernels for out-of-tree verification harnesses
+    pub use super::parse_atom::{decode_size, decode_size_with_offset, parse_atom, parse_path};
+    pub use super::ser::{LimitedWriter, node_to_stream};
+    pub use super::serialized_length::atom_length_bits;
+    pub use super::write_atom::verif_write_atom_encoding_prefix_with_size as write_atom_encoding_prefix_with_size;
+}
+
 #[cfg(test)]
 mod test;
 #[cfg(test)]
